@@ -6,12 +6,15 @@
 
     Property text vs. what is proved here (all statements: every pair of scripts, every flag word, every
     context, no size bound):
-    - "attaching a debugger never changes the verdict"                    C19_debugger_irrelevant (+ snapshots)
+    - "attaching a debugger never changes the verdict"                    C19_debugger_irrelevant (+ snapshots);
+                                                                          for EVERY debugger object:
+                                                                          C19_any_debugger_same_run (below)
     - "callbacks fire in the documented lifecycle order"                  C19_trace_grammar, C19_trace_in_grammar,
                                                                           C19_trace_ends_with_verdict
     - "consecutive step snapshots are consistent with the instruction
        executed between them"                                             C19_as_count_is_snapshots,
-                                                                          C19_snapshots_chain (per script)
+                                                                          C19_snapshots_chain (per script),
+                                                                          C19_whole_run_snapshots_chain
     - "changing stack data inside a snapshot has no effect"               in the model a debugger only receives
       values, so this is [C19_debugger_irrelevant]; that the Go snapshots really are deep copies is a run-time
       fact about thread.State(), decided on every run by the harness's scribbling debugger (PARTIAL: not a
@@ -204,3 +207,69 @@ Example C19_full_traces :
   full_lifecycle_ok false [FL BE; FL BS; FL BO; FPush; FL AO; FL BC; FL AC; FL AS; FL BS; FL BO; FPush; FL AO; FL AS;
                            FL BS; FL BO; FPop; FPush; FL AO; FL AS; FL BS; FL BO; FPop; FL AO; FPop; FL AE; FL EER] = false.
 Proof. vm_compute. repeat split; reflexivity. Qed.
+
+(** ** An explicit debugger object (audit B: was OPEN).
+    [debugger D]: a value of ANY type D with one method, handed each callback with the snapshot of the machine state
+    current at it and returning its new self.  [engine_execute_with] threads it through the run: the hooks are called where
+    thread.go calls them, between the instructions, and the rest of the run is computed in the presence of the
+    debugger's state.  For every D, every debugger and every initial debugger state the verdict and the AfterStep
+    snapshots are those of the plain engine, and the debugger ends in the state obtained by showing it the trace
+    [engine_trace] one callback after the other.  (After a FAILING instruction the Go state is partially updated and
+    documented as undefined; the model shows the state the instruction started from: see model/Debug.v.) *)
+From GoBT Require Import proofs.DebugWith proofs.SnapshotChain proofs.InterpLimits.
+
+Theorem C19_any_debugger_same_run : forall (D : Type) (dbg : debugger D) (d0 : D) so i,
+  fst (engine_execute_with dbg d0 so i) = engine_execute so i.
+Proof. exact debugger_never_changes_the_run. Qed.
+Print Assumptions C19_any_debugger_same_run.
+Theorem C19_any_debugger_is_a_replay : forall (D : Type) (dbg : debugger D) (d0 : D) so i,
+  engine_execute_with dbg d0 so i = (engine_execute so i, replay (on_event dbg) (engine_trace so i) d0).
+Proof. exact engine_execute_with_spec. Qed.
+Print Assumptions C19_any_debugger_is_a_replay.
+Theorem C19_two_debuggers_same_run : forall (D1 D2 : Type) (g1 : debugger D1) (g2 : debugger D2) d1 d2 so i,
+  fst (engine_execute_with g1 d1 so i) = fst (engine_execute_with g2 d2 so i).
+Proof. exact two_debuggers_same_run. Qed.
+Print Assumptions C19_two_debuggers_same_run.
+(** the trace shown consists of the callbacks of the instrumented run, in order; the recording debugger sees all of it *)
+Theorem C19_debugger_trace_events : forall so i, map fst (engine_trace so i) = events_of (engine_execute_dbg so i).
+Proof. exact engine_trace_events. Qed.
+Print Assumptions C19_debugger_trace_events.
+Theorem C19_recorder_sees_the_trace : forall so i, snd (engine_execute_with recorder [] so i) = engine_trace so i.
+Proof. exact recorder_sees_the_trace. Qed.
+Print Assumptions C19_recorder_sees_the_trace.
+(** the snapshots shown at the AfterStep callbacks are the AfterStep snapshots of [engine_execute] *)
+Theorem C19_trace_afterstep_snapshots : forall so i,
+  map snap (as_states (engine_states so i)) = snd (engine_execute so i).
+Proof. exact engine_states_cover_snapshots. Qed.
+Print Assumptions C19_trace_afterstep_snapshots.
+(** a debugger that counts callbacks, and the recorder, on OP_1 | OP_1 OP_EQUAL *)
+Example C19_debugger_examples :
+  engine_execute_with (mkDebugger (fun n _ _ => S n)) 0 no_sigops (mkExecInput [x51] [x51; x87] 0 false false 0 0 0) =
+    (engine_execute no_sigops (mkExecInput [x51] [x51; x87] 0 false false 0 0 0), 19) /\
+  map fst (snd (engine_execute_with recorder [] no_sigops (mkExecInput [x51] [x51; x87] 0 false false 0 0 0))) =
+    [BE; BS; BO; AO; BC; AC; AS; BS; BO; AO; AS; BS; BO; AO; BC; AC; AS; AE; EOK] /\
+  map (fun es => List.length (sn_ds (snd es))) (snd (engine_execute_with recorder [] no_sigops (mkExecInput [x51] [x51; x87] 0 false false 0 0 0))) =
+    [0; 0; 0; 1; 1; 1; 1; 1; 1; 2; 2; 2; 2; 1; 1; 1; 1; 1; 0].
+Proof. vm_compute. repeat split; reflexivity. Qed.
+
+(** ** The snapshots of a WHOLE run chain (audit B: was OPEN).
+    The states the AfterStep snapshots are taken of form a path from the initial state: each comes from the previous
+    one by one instruction ([L_step]), or by one instruction plus a script change -- alt stack dropped, per-script
+    registers reset ([L_change]; the instruction may be an early OP_RETURN) -- and on entering a P2SH redeem script
+    the data stack is replaced by the stack the unlocking script left ([saved_stack]) minus the redeem script
+    ([L_p2sh]). *)
+Theorem C19_whole_run_snapshots_chain : forall so c bip16 unlock lock,
+  exists sts : list st,
+    snd (execute so c bip16 unlock lock) = map snap sts /\
+    path (link so c (saved_stack so c unlock)) (start_state unlock lock) sts.
+Proof. exact execute_snapshots_chain. Qed.
+Print Assumptions C19_whole_run_snapshots_chain.
+Theorem C19_engine_snapshots_chain : forall so i,
+  snd (engine_execute so i) = [] \/
+  exists u l (sts : list st),
+    parse_script (c_err_on_checksig (engine_ctx i)) (ei_unlock i) = Some u /\
+    parse_script (c_err_on_checksig (engine_ctx i)) (ei_lock i) = Some l /\
+    snd (engine_execute so i) = map snap sts /\
+    path (link so (engine_ctx i) (saved_stack so (engine_ctx i) u)) (start_state u l) sts.
+Proof. exact engine_snapshots_chain. Qed.
+Print Assumptions C19_engine_snapshots_chain.
